@@ -1,6 +1,7 @@
 import KitModel.Go.Prelude
 import KitModel.Ring
 import KitModel.Containers
+import KitModel.Generated.C14
 /-!
 Driver for property C14: `kitdrv C14` reads op lines on stdin, one answer line per input line.
 
@@ -186,13 +187,13 @@ def step (st : St) (raw : String) : St × String :=
   | "rdump" => (st, dumpHeap st.heap)
   | "bnew" =>
     match l.int? "init", l.int? "bsize" with
-    | some i, some b => ({ st with buf := Buf.new i b }, "ok")
+    | some i, some b => ({ st with buf := Buf.newF Kit.Generated.C14.buffered i b }, "ok")
     | _, _ => bad
   | "bapp" =>
     match (l.get? "v").bind parseOpt with
-    | some v => ({ st with buf := st.buf.appendBack v }, "ok")
+    | some v => ({ st with buf := st.buf.appendBackF Kit.Generated.C14.buffered v }, "ok")
     | none => bad
-  | "brem" => let (b, v) := st.buf.removeFront; ({ st with buf := b }, showOpt v)
+  | "brem" => let (b, v) := st.buf.removeFrontF Kit.Generated.C14.buffered; ({ st with buf := b }, showOpt v)
   | "bfront" => (st, showOpt st.buf.front)
   | "blen" => (st, toString st.buf.len)
   | "brange" =>
